@@ -40,6 +40,12 @@ CHECKS = {
  "C13": dict(cat="other", tech="CTFE table accuracy against mpmath; abstract interpretation of the complex transform entry points",
    text="Static: each of the 1024 complex twiddles (compiler-evaluated) is within 2^-49 of exp(i*pi*bitrev(i)/1024) at 50-digit precision; for n = 2..1024 fft/merge pass that table, ifft/split pass element-for-element the conjugates of its first n entries, ifft scales by exactly 1/n. The 2^-30 error bound for all inputs is a rounding-error argument whose only repository-specific premise is the table accuracy; it and the butterflies' algebra are not decided.",
    note=TRUST + "Not decided: numerical error bound over all inputs; split/merge formulas.", ref="4/C13"),
+ "C05": dict(cat="other", tech="exact unrolling of the key encoders (byte counts, headers), CTFE widths vs spec/PQClean, element-wise refinement of gen_b0's retry guard, effect analysis of from_b0",
+   text="Static, both variants: SecretKey::to_bytes / PublicKey::to_bytes / Signature::to_bytes emit exactly 1281/897/666 resp. 2305/1793/1280 bytes with the specified header byte; field_element_width equals the specification's and PQClean's max_fg_bits/max_FG_bits; every polynomial gen_b0 returns satisfies |c| <= 2^(width-1)-1 coefficient-wise for its own width (so the encoder's two's-complement truncation is lossless for every key generation outcome, whatever ntru_gen produced); from_b0's cone is deterministic (decoding rebuilds the same tree).",
+   note=TRUST + "Not decided: bit-level inverse-ness of the packing loops for all values (round-trip equality); ntru_gen is opaque in the representability clause (its outputs are unconstrained i16).", ref="4/C05"),
+ "C16": dict(cat="other", tech="sibling cross-check: CTFE constants and abstractly evaluated layout of this crate against constants parsed from the vendored PQClean C sources",
+   text="Static agreement with the reference (PQClean sources, parsed not run): three byte sizes per variant, l2bound and the acceptance operator (X <= bound), sigma_min and 1/sigma, secret-key field widths, decoder acceptance of the reference's key header bytes, the documented signature label difference (0x5n here / 0x3n there, same log n), 14-bit public-key fields with values >= q rejected, most-significant-bit-first packing, HashToPoint (SHAKE-256, big-endian 16-bit samples, keep iff t < 61445, reduce mod q), RCDT and FACCT tables.",
+   note=TRUST + "Not decided: that each implementation accepts the other's signatures (dynamic); compressed-signature body layout agreement is covered on this side by C07.", ref="4/C16"),
 }
 NA = {
  "C17": "algebraic/numeric equivalence of two Babai reductions at run-time magnitudes; no structural clause that is both decidable and a substantial necessary condition (DESIGN.md section 4, C17)",
